@@ -106,7 +106,7 @@ def run_property(prop, tier, procs=16, only=None, tv=True):
     jobs.sort(key=lambda j: -j.get('cost', 1))
     recs = []
     tv_rec = None
-    deadline = t0 + getattr(hm, 'BUDGET_S', {}).get(tier, 1500)
+    deadline = t0 + getattr(hm, 'BUDGET_S', {}).get(tier, 1500 if tier == 'quick' else 7200)
     if jobs:
         ctx = mp.get_context('fork')
         tvproc = None
